@@ -124,6 +124,65 @@ pub fn gen_broad_tree(r: &mut Rng) -> Vec<TNode> {
     nodes
 }
 
+/// A subproblem of the synthetic tree.  Like caobab's BABNode it is ordered by its depth in the tree ONLY: different nodes of one
+/// layer compare equal (so a container that identifies entries comparing equal loses subproblems).  Debug prints the id alone.
+#[derive(Clone, Copy)]
+pub struct TSub {
+    pub id: usize,
+    pub depth: usize,
+}
+impl std::fmt::Debug for TSub {
+    fn fmt(&self, f: &mut std::fmt::Formatter<'_>) -> std::fmt::Result {
+        write!(f, "{}", self.id)
+    }
+}
+impl PartialEq for TSub {
+    fn eq(&self, other: &Self) -> bool {
+        self.depth == other.depth
+    }
+}
+impl Eq for TSub {}
+impl PartialOrd for TSub {
+    fn partial_cmp(&self, other: &Self) -> Option<std::cmp::Ordering> {
+        Some(self.cmp(other))
+    }
+}
+impl Ord for TSub {
+    fn cmp(&self, other: &Self) -> std::cmp::Ordering {
+        self.depth.cmp(&other.depth)
+    }
+}
+
+/// a tree of ties: 2-3 layers of inner nodes that ALL carry the same score (>= every leaf), each with 2-3 children, so that with
+/// two or more workers the branches of different parents with equal parent score (and equal position among their siblings) are
+/// pending at the same time in one layer; the leaves are feasible with scores up to the common bound, the optimum anywhere
+pub fn gen_tie_tree(r: &mut Rng) -> Vec<TNode> {
+    let bound = r.range(5, 9) as u32;
+    let layers = r.range(2, 3);
+    let mut nodes: Vec<TNode> = vec![TNode::No];
+    let mut frontier = vec![0usize];
+    for layer in 0..layers {
+        let mut next = Vec::new();
+        for id in frontier {
+            let nch = r.range(2, 3);
+            let mut cs = Vec::new();
+            for _ in 0..nch {
+                cs.push(nodes.len());
+                next.push(nodes.len());
+                nodes.push(TNode::No);
+            }
+            nodes[id] = TNode::Inf(cs, bound);
+        }
+        frontier = next;
+        if layer + 1 == layers {
+            for id in &frontier {
+                nodes[*id] = if r.chance(1, 10) { TNode::No } else { TNode::Feas(r.below(bound as usize + 1) as u32) };
+            }
+        }
+    }
+    nodes
+}
+
 pub struct TRun {
     pub events: Vec<Ev>,
     pub result: Option<(usize, u32)>,
@@ -145,10 +204,11 @@ pub fn run_tree(tree: &[TNode], k: usize, chooser_of: impl FnOnce(Arc<Mutex<Choi
     let failed2 = failed.clone();
     let rr = sync::run(chooser, spurious, move || {
         bab_solve(
-            move |n: usize| -> NodeResult<usize, usize, u32> {
+            move |sub: TSub| -> NodeResult<TSub, usize, u32> {
+                let n = sub.id;
                 match &t2[n] {
                     TNode::No => NodeResult::NoSolution,
-                    TNode::Inf(cs, s) => NodeResult::Infeasible(cs.clone(), *s),
+                    TNode::Inf(cs, s) => NodeResult::Infeasible(cs.iter().map(|c| TSub { id: *c, depth: sub.depth + 1 }).collect(), *s),
                     TNode::Feas(s) => NodeResult::Feasible(n, *s),
                     TNode::Panic => {
                         failed2.fetch_add(1, std::sync::atomic::Ordering::SeqCst);
@@ -156,7 +216,7 @@ pub fn run_tree(tree: &[TNode], k: usize, chooser_of: impl FnOnce(Arc<Mutex<Choi
                     }
                 }
             },
-            0usize,
+            TSub { id: 0, depth: 0 },
             k as u32,
         )
     });
@@ -311,10 +371,16 @@ pub fn run(plan: Plan, shards: usize, outdir: &str, replay: Option<String>) {
             let consistent = plan.panics || !r.chance(1, 6);
             // every 8th tree (without failing nodes): a broad tree with 16 and more pending subproblems at once
             let broad = !plan.panics && ti % 8 == 7;
-            let tree = if broad { gen_broad_tree(&mut r) } else { gen_tree(&mut r, n, npanic, consistent) };
+            // every 8th tree (without failing nodes): a tree of ties, with two or more workers
+            let ties = !plan.panics && ti % 8 == 3;
+            let broad = broad || ties;
+            let tree = if ties { gen_tie_tree(&mut r) } else if broad { gen_broad_tree(&mut r) } else { gen_tree(&mut r, n, npanic, consistent) };
             let consistent = consistent || broad;
+            if ties {
+                *hist.entry(String::from("tie_tree")).or_insert(0) += 1;
+            }
             let n = tree.len();
-            if broad {
+            if broad && !ties {
                 *hist.entry(String::from("broad_tree")).or_insert(0) += 1;
             }
             *hist.entry(format!("nodes:{:02}", n)).or_insert(0) += 1;
